@@ -11,7 +11,8 @@ const TOKENS: [&str; 19] = [
     // words gluing digits and letters (split by the checker where digits and letters meet)
     "3D", "Quake4", "4x4",
 ];
-const BRACKETS: [&str; 4] = ["", " (2003)", " (java)", " (legacy 1.6)"];
+// (short bracket contents too: an edition tag can be shorter than a year)
+const BRACKETS: [&str; 8] = ["", " (2003)", " (java)", " (legacy 1.6)", " (HD)", " (II)", " (64)", " (X)"];
 const MODS: [&str; 3] = ["", " - FiveM", " - Multi Theft Auto"];
 
 /// Silence the checker's own printing (it prints every failure to stdout).
@@ -126,7 +127,7 @@ impl Prop for C20 {
     fn rule(&self) -> String {
         "names: every sequence of 1..4 (quick) / 1..5 (thorough) tokens from a 19-token alphabet (words, capitalised words, a \
          dotted acronym, roman numerals I-forms, numbers 2/16/2003, hyphenated pairs, a '44-'45 number range, a word with \
-         punctuation, a number-word hyphenation, three words gluing digits and letters) x bracket suffix {none, year, edition, 'legacy 1.6'} x mod suffix {none, \
+         punctuation, a number-word hyphenation, three words gluing digits and letters) x bracket suffix {none, year, edition, 'legacy 1.6', HD, II, 64, X} x mod suffix {none, \
          ' - FiveM', ' - Multi Theft Auto'}; for each name: the checker must not panic; the ids it reports as expected must \
          not depend on which wrong id is probed; each reported id must be accepted (empty result) and each single edit of it \
          (drop first/last char, upper-case a letter, swap, append, prepend) must be rejected. lists: every sequence of up to 3 \
@@ -146,6 +147,11 @@ impl Prop for C20 {
                 let mut n = 0u64;
                 loop {
                     for b in 0 .. BRACKETS.len() {
+                        // quick tier: the four short bracket contents with names of up to 3 tokens (the bracket is handled
+                        // before and independently of the words); all of them with every length in thorough
+                        if b >= 4 && len > 3 && !tier.is_thorough() {
+                            continue;
+                        }
                         for m in 0 .. MODS.len() {
                             let name = name_from(&toks, b, m);
                             let key: Vec<u32> = toks.iter().map(|t| *t as u32).chain([b as u32, m as u32]).collect();
